@@ -24,6 +24,8 @@ type c02KeyCase struct {
 	Chunk int // GenerateKey reads Seed (repeated) in pieces of at most Chunk bytes
 	Limit int // ... and the source ends after Limit bytes (-1: never)
 	Bit   int
+	// EOFData: the read delivering the last available byte also returns io.EOF
+	EOFData bool `json:",omitempty"`
 }
 
 func c02GenKey(t *rapid.T) c02KeyCase {
@@ -41,6 +43,9 @@ func c02GenKey(t *rapid.T) c02KeyCase {
 		c.Limit = rapid.SampledFrom([]int{0, 1, 16, 31}).Draw(t, "limit")
 	case 1:
 		c.Limit = rapid.SampledFrom([]int{32, 33, 64}).Draw(t, "limit")
+	case 2:
+		c.Limit = rapid.SampledFrom([]int{32, 32, 33, 64}).Draw(t, "limit")
+		c.EOFData = true
 	}
 	c.Bit = rapid.IntRange(0, 511).Draw(t, "bit")
 	return c
@@ -93,7 +98,7 @@ func c02CheckKey(c c02KeyCase) h.Result {
 	}
 
 	// GenerateKey from a generated entropy reader
-	ent := c02Ent{Kind: 5, Bytes: c.Seed, Chunk: c.Chunk, Limit: c.Limit}
+	ent := c02Ent{Kind: 5, Bytes: c.Seed, Chunk: c.Chunk, Limit: c.Limit, EOFData: c.EOFData}
 	rd := ent.Reader()
 	r.Eval(1)
 	gpub, gpriv, err := ed25519.GenerateKey(rd)
